@@ -180,7 +180,7 @@ def main():
     print('MANIFEST: %d claimed, %d not applicable/pending' % (len(checks), len(na)))
 
 
-MIR_USERS = {'C10'}
+MIR_USERS = set('C%02d' % i for i in range(1, 21))
 
 if __name__ == '__main__':
     main()
